@@ -27,11 +27,15 @@ CONSTANTS
     MaxQueue,      \* queued messages per channel in the free phase
     Pick,          \* "all": every slot list is a successor (exhaustive runs);
                    \* "random": one randomly drawn slot list per send (simulation runs)
+    MaxSets,       \* receiver sets that may be created
     RegionLens,    \* lengths of regions (abstract tokens for the harness' table of real lengths)
     Kinds          \* subset of {"typed", "bytes"}: channel flavours NewChannel may create
 
 VARIABLES
-    H,         \* live handles: set of [id, k, c, o]  (k: "S" | "R" | "M"; o: owning agent)
+    H,         \* live handles: set of [id, k, c, o]  (k: "S" | "R" | "M" | "X"; o: owning agent;
+               \* "X" = a receiver set, c = its number)
+    members,   \* members[x]: sequence of [id, c] - receivers added to set x (id as returned by add)
+    nextX,     \* next receiver-set number
     nextH,     \* next handle id
     nextC,     \* next channel id
     ctype,     \* ctype[c] \in {"typed", "bytes"}
@@ -45,10 +49,10 @@ VARIABLES
     nops,
     log        \* history of operations with their results
 
-vars == <<H, nextH, nextC, ctype, q, rcv, regs, nextR, nextTag, alive, phase, nops, log>>
+vars == <<H, nextH, nextC, ctype, q, rcv, regs, nextR, nextTag, alive, phase, nops, log, members, nextX>>
 
 \* what TLC should identify states by when the history is not wanted
-View == <<H, nextH, nextC, ctype, q, rcv, regs, nextR, alive, phase>>
+View == <<H, nextH, nextC, ctype, q, rcv, regs, nextR, alive, phase, members, nextX>>
 
 Chans == 0..(nextC - 1)
 
@@ -95,12 +99,14 @@ Init ==
     /\ alive = Agents
     /\ phase = "free" /\ nops = 0
     /\ log = <<>>
+    /\ members = <<>> /\ nextX = 1
 
 Logged(e) == log' = Append(log, e) /\ nops' = nops + 1
 Free == phase = "free" /\ nops < MaxOps
 
 -----------------------------------------------------------------------------
 NewChannel(a, typ) ==
+    /\ UNCHANGED <<members, nextX>>
     /\ Free /\ a \in alive /\ nextC <= MaxCh /\ typ \in Kinds
     /\ H' = H \cup {[id |-> nextH, k |-> "S", c |-> nextC, o |-> a],
                     [id |-> nextH + 1, k |-> "R", c |-> nextC, o |-> a]}
@@ -112,6 +118,7 @@ NewChannel(a, typ) ==
     /\ UNCHANGED <<regs, nextR, nextTag, alive, phase>>
 
 NewRegion(a, ln) ==
+    /\ UNCHANGED <<members, nextX>>
     /\ Free /\ a \in alive /\ nextR <= MaxRegions
     /\ regs' = Append(regs, [len |-> ln, tok |-> nextTag])
     /\ H' = H \cup {[id |-> nextH, k |-> "M", c |-> nextR, o |-> a]}
@@ -120,21 +127,29 @@ NewRegion(a, ln) ==
     /\ UNCHANGED <<nextC, ctype, q, rcv, alive, phase>>
 
 Clone(a, h) ==
+    /\ UNCHANGED <<members, nextX>>
     /\ Free /\ h \in Owned(a) /\ h.k \in {"S", "M"}
     /\ H' = H \cup {[id |-> nextH, k |-> h.k, c |-> h.c, o |-> a]}
     /\ nextH' = nextH + 1
     /\ Logged([op |-> "clone", a |-> a, h |-> h.id, nh |-> nextH])
     /\ UNCHANGED <<nextC, ctype, q, rcv, regs, nextR, nextTag, alive, phase>>
 
+SetChans(x) == {members[x][i].c : i \in 1..Len(members[x])}
+
 Drop(a, h) ==
     /\ Free /\ h \in Owned(a)
     /\ H' = H \ {h}
-    /\ IF h.k = "R" THEN Kill({h.c}) ELSE UNCHANGED <<q, rcv>>
+    /\ IF h.k = "R" THEN Kill({h.c})
+       ELSE IF h.k = "X" THEN Kill(SetChans(h.c))        \* a set takes its members with it
+       ELSE UNCHANGED <<q, rcv>>
+    /\ members' = IF h.k = "X" THEN [members EXCEPT ![h.c] = <<>>] ELSE members
+    /\ UNCHANGED nextX
     /\ Logged([op |-> "drop", a |-> a, h |-> h.id])
     /\ UNCHANGED <<nextH, nextC, ctype, regs, nextR, nextTag, alive, phase>>
 
 \* Reading a region through any handle gives the bytes it was created with.
 Read(a, h) ==
+    /\ UNCHANGED <<members, nextX>>
     /\ Free /\ h \in Owned(a) /\ h.k = "M"
     /\ Logged([op |-> "read", a |-> a, h |-> h.id, len |-> regs[h.c].len, tok |-> regs[h.c].tok])
     /\ UNCHANGED <<H, nextH, nextC, ctype, q, rcv, regs, nextR, nextTag, alive, phase>>
@@ -192,6 +207,7 @@ SendMsg(a, h, hs, big, entry) ==
        /\ UNCHANGED <<nextH, nextC, ctype, regs, nextR, alive>>
 
 Send(a, h, hs, big) ==
+    /\ UNCHANGED <<members, nextX>>
     /\ Free /\ h \in Owned(a) /\ h.k = "S"
     /\ Len(q[h.c]) < MaxQueue
     /\ SendMsg(a, h, hs, big, "send")
@@ -230,18 +246,63 @@ RecvMsg(a, h, mode, entry) ==
                       tag |-> 0, big |-> FALSE, slots |-> <<>>])
 
 Recv(a, h, mode) ==
+    /\ UNCHANGED <<members, nextX>>
     /\ Free /\ h \in Owned(a) /\ h.k = "R"
     /\ mode \in {"recv", "try", "timeout"}
     /\ mode = "recv" => (q[h.c] # <<>> \/ Senders(h.c) = 0)     \* never issue a call that would block
     /\ RecvMsg(a, h, mode, "recv")
     /\ UNCHANGED <<nextC, ctype, regs, nextR, nextTag, alive, phase>>
 
+\* IpcReceiverSet::new
+SetNew(a) ==
+    /\ Free /\ a \in alive /\ nextX <= MaxSets
+    /\ H' = H \cup {[id |-> nextH, k |-> "X", c |-> nextX, o |-> a]}
+    /\ nextH' = nextH + 1 /\ nextX' = nextX + 1
+    /\ members' = Append(members, <<>>)
+    /\ Logged([op |-> "setnew", a |-> a, nh |-> nextH])
+    /\ UNCHANGED <<nextC, ctype, q, rcv, regs, nextR, nextTag, alive, phase>>
+
+\* set.add(receiver): the receiver moves into the set; ids count up from 0 and are never reused (C06)
+SetAdd(a, hx, hr) ==
+    /\ Free /\ hx \in Owned(a) /\ hx.k = "X" /\ hr \in Owned(a) /\ hr.k = "R" /\ ctype[hr.c] = "typed"
+    /\ H' = H \ {hr}
+    /\ LET sid == Cardinality({e.id : e \in {log[i] : i \in {j \in 1..Len(log) : log[j].op = "setadd" /\ log[j].x = hx.id}}})
+       IN /\ members' = [members EXCEPT ![hx.c] = Append(@, [id |-> sid, c |-> hr.c])]
+          /\ Logged([op |-> "setadd", a |-> a, x |-> hx.id, h |-> hr.id, id |-> sid])
+    /\ UNCHANGED <<nextH, nextC, ctype, q, rcv, regs, nextR, nextTag, alive, phase, nextX>>
+
+\* select() until everything that is pending now has been reported: per member its queued messages in order and
+\* then "closed" if no sender exists; closed members leave the set. (How many events one select call returns is
+\* transport specific; the harness repeats select until it has seen `n` events.) Never issued when nothing is
+\* pending (it would block).
+PendingMember(m) == q[m.c] # <<>> \/ Senders(m.c) = 0
+SetDrain(a, hx) ==
+    /\ Free /\ hx \in Owned(a) /\ hx.k = "X"
+    /\ \E i \in 1..Len(members[hx.c]) : PendingMember(members[hx.c][i])
+    /\ LET ms == members[hx.c]
+           \* only messages without embedded endpoints are drained through sets in generated programs
+           simple == \A i \in 1..Len(ms) : \A k \in 1..Len(q[ms[i].c]) : \A t \in 1..Len(q[ms[i].c][k].slots) :
+                        q[ms[i].c][k].slots[t].k = "D"
+           closed == {i \in 1..Len(ms) : Senders(ms[i].c) = 0}
+           evs == [i \in 1..Len(ms) |-> [id |-> ms[i].id,
+                                          tags |-> [k \in 1..Len(q[ms[i].c]) |-> q[ms[i].c][k].tag],
+                                          closed |-> i \in closed]]
+           n == SeqSum([i \in 1..Len(ms) |-> Len(q[ms[i].c]) + (IF i \in closed THEN 1 ELSE 0)])
+       IN /\ simple
+          /\ q' = [c \in DOMAIN q |-> IF \E i \in 1..Len(ms) : ms[i].c = c THEN <<>> ELSE q[c]]
+          /\ rcv' = [c \in DOMAIN rcv |-> IF \E i \in closed : ms[i].c = c THEN "gone" ELSE rcv[c]]
+          /\ members' = [members EXCEPT ![hx.c] = SelectSeq(ms, LAMBDA m : Senders(m.c) # 0)]
+          /\ Logged([op |-> "setdrain", a |-> a, x |-> hx.id, n |-> n, evs |-> evs])
+    /\ UNCHANGED <<H, nextH, nextC, ctype, regs, nextR, nextTag, alive, phase, nextX>>
+
 \* An agent other than the main one ends: all its handles are dropped (thread end / process exit).
 AgentExit(a) ==
     /\ Free /\ a \in alive /\ a # 0
     /\ alive' = alive \ {a}
     /\ H' = H \ Owned(a)
-    /\ Kill({h.c : h \in {x \in Owned(a) : x.k = "R"}})
+    /\ Kill({h.c : h \in {x \in Owned(a) : x.k = "R"}} \cup UNION {SetChans(h.c) : h \in {x \in Owned(a) : x.k = "X"}})
+    /\ members' = [x \in DOMAIN members |-> IF \E h \in Owned(a) : h.k = "X" /\ h.c = x THEN <<>> ELSE members[x]]
+    /\ UNCHANGED nextX
     /\ Logged([op |-> "exit", a |-> a])
     /\ UNCHANGED <<nextH, nextC, ctype, regs, nextR, nextTag, phase>>
 
@@ -250,6 +311,9 @@ FreeStep ==
     \E a \in Agents :
        \/ \E typ \in Kinds : NewChannel(a, typ)
        \/ \E ln \in RegionLens : NewRegion(a, ln)
+       \/ SetNew(a)
+       \/ \E hx \in Owned(a), hr \in Owned(a) : SetAdd(a, hx, hr)
+       \/ \E hx \in Owned(a) : SetDrain(a, hx)
        \/ \E h \in Owned(a) :
             \/ Clone(a, h) \/ Drop(a, h) \/ Read(a, h)
             \/ \E mode \in {"recv", "try", "timeout"} : Recv(a, h, mode)
@@ -263,6 +327,7 @@ FreeStep ==
 (* says it is, and that nothing was lost, duplicated or reordered.                              *)
 
 EndFree ==
+    /\ UNCHANGED <<members, nextX>>
     /\ phase = "free" /\ (nops >= MinOps \/ H = {})
     /\ phase' = "probe"
     /\ UNCHANGED <<H, nextH, nextC, ctype, q, rcv, regs, nextR, nextTag, alive, nops, log>>
@@ -274,6 +339,7 @@ Probed == {e.h : e \in {log[i] : i \in {j \in 1..Len(log) : log[j].op = "probe"}
 ToProbe == {h \in H : h.k = "S" /\ h.id \notin Probed}
 
 Probe ==
+    /\ UNCHANGED <<members, nextX>>
     /\ phase = "probe"
     /\ IF ToProbe = {}
          THEN /\ phase' = "drain"
@@ -288,6 +354,7 @@ Finished == {e.h : e \in {log[i] : i \in {j \in 1..Len(log) :
 ToDrain == {h \in H : h.k = "R" /\ h.id \notin Finished}
 
 Drain ==
+    /\ UNCHANGED <<members, nextX>>
     /\ phase = "drain"
     /\ IF ToDrain = {}
          THEN /\ phase' = "done"
@@ -313,6 +380,7 @@ TypeOK ==
 OneReceiver ==
     \A c \in Chans :
        LET held    == Cardinality({h \in H : h.k = "R" /\ h.c = c})
+                        + Cardinality({x \in DOMAIN members : \E i \in 1..Len(members[x]) : members[x][i].c = c})
            transit == SeqSum([i \in 1..nextC |-> QueueCount(i - 1, "R", c)])
        IN /\ held + transit = (IF rcv[c] = "gone" THEN 0 ELSE 1)
           /\ rcv[c] = "held" <=> held = 1
